@@ -78,13 +78,17 @@ def parseSc (text : String) : Option SScenario :=
   let ls := text.splitOn "\n"
   parseLines (ls.length + 1) ls {}
 
+/-- Named keys 4, 5, … are *raw* names (`SysName::new_raw(0)`) for the function items of the `syscall` keys 0, 1, …: the same
+    function under another key of another class, so the definition is the `syscall` key's. -/
+def defOf (k : SKind) (key : Nat) : SKind × Nat := if k == .n && key ≥ 4 then (.f, key - 4) else (k, key)
+
 def SScenario.prog (sc : SScenario) : SProg where
   ops := fun k key run =>
-    match sc.defs.find? (fun d => d.kind == k && d.key == key) with
+    match sc.defs.find? (fun d => d.kind == (defOf k key).1 && d.key == (defOf k key).2) with
     | some d => (d.runs[run]?).getD []
     | none => []
   excl := fun k key =>
-    match sc.defs.find? (fun d => d.kind == k && d.key == key) with
+    match sc.defs.find? (fun d => d.kind == (defOf k key).1 && d.key == (defOf k key).2) with
     | some d => d.excl
     | none => false
 
